@@ -67,6 +67,28 @@ class HandoverVertex(Vertex):
                 self._handing = False
 
 
+class NestingVertex(Vertex):
+    """
+    User code inside pickling: the state of this vertex carries a blob made by
+    a nested nrpickler.dumps() (a private side structure stored pre-pickled).
+    """
+
+    def __getstate__(self):
+        from edgegraph.output import nrpickler
+
+        state = dict(self.__dict__)
+        state["_side_blob"] = nrpickler.dumps(["side", state.get("sim_tag")])
+        return state
+
+    def __setstate__(self, state):
+        import pickle
+
+        blob = state.pop("_side_blob", None)
+        self.__dict__.update(state)
+        if blob is not None:
+            self._side = pickle.loads(blob)
+
+
 class SlottedVertex(Vertex):
     """A vertex subclass that keeps some of its attributes in __slots__."""
 
@@ -124,6 +146,16 @@ class FrozenEdge(DirectedEdge):
         return self.vertices[1]
 
 
+class JoiningEdge(DirectedEdge):
+    """User code inside the builders: a new edge joins the universes of its origin."""
+
+    def __init__(self, v1=None, v2=None, *, uid=None, attributes=None):
+        super().__init__(v1, v2, uid=uid, attributes=attributes)
+        if v1 is not None:
+            for uni in v1.universes:
+                self.add_to_universe(uni)
+
+
 class _FalsyMeta(type):
     """Classes made with this metaclass are falsy (e.g. len(cls) counts something)."""
 
@@ -159,6 +191,7 @@ VERTEX_CLASSES = {
     "SlottedVertex": SlottedVertex,
     "EqVertex": EqVertex,
     "HandoverVertex": HandoverVertex,
+    "NestingVertex": NestingVertex,
 }
 UNIVERSE_CLASSES = {
     "Universe": Universe,
@@ -176,6 +209,7 @@ EDGE_CLASSES = {
     "RenamedDirected": RenamedDirected,
     "FalsyClassEdge": FalsyClassEdge,
     "FrozenEdge": FrozenEdge,
+    "JoiningEdge": JoiningEdge,
 }
 ALL_CLASSES = dict(VERTEX_CLASSES)
 ALL_CLASSES.update(UNIVERSE_CLASSES)
